@@ -39,8 +39,10 @@ class Extraction:
             it = Interp(model, q, self.message_classes)
             self.interp[q] = it
             c = model.classes[q]
+            # (alternative constructors and static helpers have no session of their own to act on: what they do to the session they
+            # build is done through that session's entries, which are all here)
             names = sorted({n for k in c.mro if k in model.classes for n, fi in model.classes[k].methods.items()
-                            if not n.startswith("_")})
+                            if not n.startswith("_") and not isinstance(fi.node, ast.Lambda) and not fi.is_classmethod and not fi.is_staticmethod})
             self.entries[q] = names
             ps: List[PathSummary] = []
             for e in names:
